@@ -7,144 +7,26 @@ stated for), so every theorem of `Props/C17.lean` holds of the function the code
 
 Python's `//` and `%` raise `ZeroDivisionError` on a zero divisor and round to −∞ for any sign; the hand model
 `alignDown` / `fdiv` uses `Int.emod` / `Int.ediv` and is documented for a positive divisor, hence `0 < align`.
+
+The theorems live in OdcGeo/Props/GenC17/*.lean, one compilation unit per tied function or small group; this file only
+imports them all (`lake build OdcGeo.Props.GenC17`).
 -/
-import OdcGeo.Gen.C17
-import OdcGeo.Gen.Tie
-import OdcGeo.Props.C17
-
-namespace OdcGeo.C17
-open OdcGeo.Gen OdcGeo.PySlice
-
-/-! ## ties: generated definition = hand model -/
-
-/-- `math.align_down` -/
-theorem tie_align_down (x align : Int) (h : 0 < align) :
-    Gen.C17.align_down x align = .ok (alignDown x align) := by
-  have h0 : align ≠ 0 := by omega
-  simp only [Gen.C17.align_down, alignDown]
-  tie_auto []
-
-/-- `math.align_up` -/
-theorem tie_align_up (x align : Int) (h : 0 < align) :
-    Gen.C17.align_up x align = .ok (alignUp x align) := by
-  have h0 : align ≠ 0 := by omega
-  have hd := fun y => tie_align_down y align h
-  simp only [Gen.C17.align_up, alignUp, Gen.C17.align_down, alignDown] at hd ⊢
-  tie_auto []
-
-/-- `roi._norm_slice_or_error` -/
-theorem tie_norm_slice_or_error (s : PIdx) : Gen.C17.norm_slice_or_error s = normSliceOrError s := by
-  rcases s with i | ⟨_ | a, _ | b⟩ <;>
-    tie_auto [Gen.C17.norm_slice_or_error, normSliceOrError]
-
-/-- `roi._norm_slice` -/
-theorem tie_norm_slice (s : PIdx) (n : Int) : Gen.C17.norm_slice s n = normSlice s n := by
-  rcases s with i | ⟨_ | a, _ | b⟩ <;>
-    tie_auto [Gen.C17.norm_slice, normSlice, wrapNeg]
-
-/-- `roi.slice_intersect3` -/
-theorem tie_slice_intersect3 (a b : PIdx) : Gen.C17.slice_intersect3 a b = sliceIntersect3 a b := by
-  tie_auto [Gen.C17.slice_intersect3, sliceIntersect3, tie_norm_slice_or_error, intersect3N]
-
-/-- `roi.roi_intersect`'s `slice_intersect` -/
-theorem tie_slice_intersect (a b : PIdx) : Gen.C17.slice_intersect a b = sliceIntersect a b := by
-  tie_auto [Gen.C17.slice_intersect, sliceIntersect, tie_norm_slice_or_error, intersectN]
-
-/-- `roi.roi_shape`'s `slice_dim` -/
-theorem tie_slice_dim (s : PIdx) : Gen.C17.slice_dim s = sliceDim s := by
-  rcases s with i | ⟨_ | a, _ | b⟩ <;> tie_auto [Gen.C17.slice_dim, sliceDim]
-
-/-- `roi.roi_is_full`'s `slice_full` -/
-theorem tie_slice_full (s : PIdx) (n : Int) : Gen.C17.slice_full s n = sliceFull s n := by
-  rcases s with i | ⟨_ | a, _ | b⟩ <;> tie_auto [Gen.C17.slice_full, sliceFull]
-
-/-- `roi.roi_center`'s `slice_center` -/
-theorem tie_slice_center (s : PIdx) : Gen.C17.slice_center s = sliceCenter s := by
-  tie_auto [Gen.C17.slice_center, sliceCenter, tie_norm_slice_or_error]
-
-/-- `roi.roi_pad`'s `pad_slice` (closure variable `pad` is the last parameter) -/
-theorem tie_pad_slice (s : PIdx) (n pad : Int) : Gen.C17.pad_slice s n pad = padSlice s pad n := by
-  tie_auto [Gen.C17.pad_slice, padSlice, tie_norm_slice]
-
-/-- `roi.scaled_down_roi` (both axes) -/
-theorem tie_scaled_down_roi (roi : NSlice × NSlice) (scale : Int) (h : 0 < scale) :
-    Gen.C17.scaled_down_roi roi scale = .ok (scaledDownSlice roi.1 scale, scaledDownSlice roi.2 scale) := by
-  have h0 : scale ≠ 0 := by omega
-  tie_auto [Gen.C17.scaled_down_roi, scaledDownSlice, tie_align_up _ _ h, fdiv]
-
-/-- `roi.scaled_up_roi` (both axes; `shape` clamps when given) -/
-theorem tie_scaled_up_roi (roi : NSlice × NSlice) (scale : Int) (shape : Option (Int × Int)) :
-    Gen.C17.scaled_up_roi roi scale shape =
-      (scaledUpSlice roi.1 scale (shape.map (·.1)), scaledUpSlice roi.2 scale (shape.map (·.2))) := by
-  cases shape <;> tie_auto [Gen.C17.scaled_up_roi, scaledUpSlice, Option.map]
-
-/-- `roi.scaled_down_shape` (two axes) -/
-theorem tie_scaled_down_shape (shape : Int × Int) (scale : Int) (h : 0 < scale) :
-    Gen.C17.scaled_down_shape shape scale = .ok (scaledDownDim shape.1 scale, scaledDownDim shape.2 scale) := by
-  have h0 : scale ≠ 0 := by omega
-  tie_auto [Gen.C17.scaled_down_shape, scaledDownDim, tie_align_up _ _ h, fdiv]
-
-/-! ## headline theorems of `Props/C17.lean`, transferred to the regenerated definitions -/
-
-/-- `normalise_same_elements` for the function `_norm_slice` as written in the source -/
-theorem gen_normalise_same_elements (n : Int) (hn : 0 ≤ n) (a b : Option Int) (i : Int) :
-    Sel n (Gen.C17.norm_slice (.slc a b) n).toPIdx i ↔ Sel n (.slc a b) i := by
-  rw [tie_norm_slice]; exact normalise_same_elements n hn a b i
-
-/-- `normalise_int_index` for the source `_norm_slice` -/
-theorem gen_normalise_int_index (n : Int) (k : Int) (hk : -n ≤ k ∧ k < n) (i : Int) :
-    Sel n (Gen.C17.norm_slice (.idx k) n).toPIdx i ↔ Sel n (.idx k) i := by
-  rw [tie_norm_slice]; exact normalise_int_index n k hk i
-
-/-- `intersect3_common` for the source `slice_intersect3`: on closed non-negative operands it succeeds and its
-third component selects exactly the common index set -/
-theorem gen_intersect3_common (n : Int) (a b : NSlice) (i : Int)
-    (ha : 0 ≤ a.start ∧ 0 ≤ a.stop) (hb : 0 ≤ b.start ∧ 0 ≤ b.stop) :
-    ∃ r, Gen.C17.slice_intersect3 a.toPIdx b.toPIdx = .ok r ∧
-      (Sel n r.2.2.toPIdx i ↔ (Sel n a.toPIdx i ∧ Sel n b.toPIdx i)) := by
-  refine ⟨intersect3N a b, ?_, intersect3_common n a b i ha hb⟩
-  rw [tie_slice_intersect3]
-  apply intersect3_total
-  · have : ¬ (a.stop < 0 ∨ a.start < 0) := by omega
-    simp [normSliceOrError, NSlice.toPIdx, this]
-  · have : ¬ (b.stop < 0 ∨ b.start < 0) := by omega
-    simp [normSliceOrError, NSlice.toPIdx, this]
-
-/-- `pad_within` for the source `roi_pad.pad_slice` -/
-theorem gen_pad_within (n : Int) (hn : 0 ≤ n) (s : PIdx) (pad : Int) :
-    0 ≤ (Gen.C17.pad_slice s n pad).start ∧ (Gen.C17.pad_slice s n pad).stop ≤ n := by
-  rw [tie_pad_slice]; exact pad_within n hn s pad
-
-/-- `center_eq` for the source `roi_center.slice_center` -/
-theorem gen_center_eq (s e : Int) (h : 0 ≤ s ∧ 0 ≤ e) :
-    Gen.C17.slice_center (.slc (some s) (some e)) = .ok (((s + e : Int) : Rat) / 2) := by
-  rw [tie_slice_center]; exact center_eq s e h
-
-/-- `align_down_spec` for the source `align_down`: it does not raise for a positive alignment and returns the
-multiple of `a` in `(x - a, x]` -/
-theorem gen_align_down_spec (x a : Int) (ha : 0 < a) :
-    ∃ y, Gen.C17.align_down x a = .ok y ∧ a ∣ y ∧ y ≤ x ∧ x - y < a :=
-  ⟨alignDown x a, tie_align_down x a ha, align_down_spec x a ha⟩
-
-/-- `align_up_spec` for the source `align_up` -/
-theorem gen_align_up_spec (x a : Int) (ha : 0 < a) :
-    ∃ y, Gen.C17.align_up x a = .ok y ∧ a ∣ y ∧ x ≤ y ∧ y - x < a :=
-  ⟨alignUp x a, tie_align_up x a ha, align_up_spec x a ha⟩
-
-/-- `scale_down_up` for the source `scaled_down_roi` followed by `scaled_up_roi` (no clamp), per axis -/
-theorem gen_scale_down_up (roi : NSlice × NSlice) (k : Int) (hk : 0 < k) :
-    ∃ d, Gen.C17.scaled_down_roi roi k = .ok d ∧
-      let r := Gen.C17.scaled_up_roi d k none
-      (r.1.start ≤ roi.1.start ∧ roi.1.start - r.1.start < k ∧ roi.1.stop ≤ r.1.stop ∧ r.1.stop - roi.1.stop < k) ∧
-      (r.2.start ≤ roi.2.start ∧ roi.2.start - r.2.start < k ∧ roi.2.stop ≤ r.2.stop ∧ r.2.stop - roi.2.stop < k) := by
-  refine ⟨_, tie_scaled_down_roi roi k hk, ?_⟩
-  simp only [tie_scaled_up_roi, Option.map]
-  exact ⟨scale_down_up roi.1 k hk, scale_down_up roi.2 k hk⟩
-
-/-- `scaled_down_dim_spec` for the source `scaled_down_shape` -/
-theorem gen_scaled_down_dim_spec (shape : Int × Int) (k : Int) (hk : 0 < k) :
-    ∃ d, Gen.C17.scaled_down_shape shape k = .ok d ∧
-      (shape.1 ≤ d.1 * k ∧ d.1 * k - shape.1 < k) ∧ (shape.2 ≤ d.2 * k ∧ d.2 * k - shape.2 < k) :=
-  ⟨_, tie_scaled_down_shape shape k hk, scaled_down_dim_spec shape.1 k hk, scaled_down_dim_spec shape.2 k hk⟩
-
-end OdcGeo.C17
+import OdcGeo.Props.GenC17.AlignDown
+import OdcGeo.Props.GenC17.AlignUp
+import OdcGeo.Props.GenC17.NormSliceOrError
+import OdcGeo.Props.GenC17.NormSlice
+import OdcGeo.Props.GenC17.SliceIntersect3
+import OdcGeo.Props.GenC17.SliceIntersect
+import OdcGeo.Props.GenC17.SliceDim
+import OdcGeo.Props.GenC17.SliceFull
+import OdcGeo.Props.GenC17.SliceCenter
+import OdcGeo.Props.GenC17.PadSlice
+import OdcGeo.Props.GenC17.ScaledDownRoi
+import OdcGeo.Props.GenC17.ScaledUpRoi
+import OdcGeo.Props.GenC17.ScaleDownUp
+import OdcGeo.Props.GenC17.ScaledDownShape
+import OdcGeo.Props.GenC17.RoiShape
+import OdcGeo.Props.GenC17.RoiIsEmpty
+import OdcGeo.Props.GenC17.RoiIsFull
+import OdcGeo.Props.GenC17.RoiNormalise
+import OdcGeo.Props.GenC17.RoiPad
